@@ -2,6 +2,7 @@ import CstModel.Props.C02
 import CstModel.Props.C03
 import CstModel.Props.Gen
 import CstModel.Props.GenToken
+import CstModel.Props.GenIter
 open Cst.C02
 #print axioms history_canonical
 #print axioms observed_range
@@ -15,3 +16,5 @@ open Cst.C02
 #print axioms Cst.C03.forwarders_resolved_ok
 #print axioms Cst.Gen.tok_text_range
 #print axioms Cst.Gen.nd_text_range
+#print axioms Cst.Gen.it_new
+#print axioms Cst.Gen.it_next
